@@ -3,11 +3,12 @@
    to OCaml's; N, Z, positive, nat, byte stay the extracted inductive types. *)
 From Coq Require Extraction.
 From Coq Require Import ExtrOcamlBasic.
-From PS Require Import Base GFDefs PackDefs StoreDefs MiscDefs StrDefs LangDefs ApiDefs.
+From PS Require Import Base GFDefs PackDefs StoreDefs MiscDefs StrDefs LangDefs ApiDefs SpecDefs SpecApi.
 From PS.Gen Require Consts PrivConsts Langs.
 
 Extraction Language OCaml.
 Extraction "model.ml"
   ApiDefs.step ApiDefs.init_state ApiDefs.mkdeps
   Gen.Langs.langs Gen.Consts.char_signed Gen.Consts.STR_SIZE
-  GFDefs.mul2 GFDefs.poly_eval.
+  GFDefs.mul2 GFDefs.poly_eval
+  SpecApi.astep SpecApi.ainit SpecDefs.accepts_b SpecDefs.spec_find MiscDefs.RESERVED_DEFAULT.
